@@ -43,7 +43,7 @@ FT0 = 116444736000000000
 def plan(tier):
     if tier == "thorough":
         return {"n": None, "budget_s": int(os.environ.get("VERIF_BUDGET_S", "900")), "case_timeout": 300}
-    return {"n": 2000, "budget_s": 170, "case_timeout": 120}
+    return {"n": 6000, "budget_s": 170, "case_timeout": 120}
 
 
 def gen_case(rng: Rng, i: int, tier: str):
